@@ -271,6 +271,7 @@ func runFwOp(o *FwOp, rng *RNG, objs *fwObjects) (out string) {
 	}
 	reg.SetConfiguration(cfg)
 	var rs *zlint.ResultSet
+	var altObj interface{}
 	switch o.Kind {
 	case "cert":
 		key := fmt.Sprintf("%s|%d|%v", o.View.String(), o.Target.Unix(), o.Offset)
@@ -297,9 +298,11 @@ func runFwOp(o *FwOp, rng *RNG, objs *fwObjects) (out string) {
 			*pre = *c
 			rec.log = map[string]*strings.Builder{}
 			rs = zlint.LintCertificateEx(pre, reg)
+			altObj = pre
 			break
 		}
 		rs = zlint.LintCertificateEx(c, reg)
+		altObj = c
 	case "crl":
 		c := objs.crlCache[o.Target.Unix()]
 		if c == nil {
@@ -311,6 +314,7 @@ func runFwOp(o *FwOp, rng *RNG, objs *fwObjects) (out string) {
 			objs.crlCache[o.Target.Unix()] = c
 		}
 		rs = zlint.LintRevocationListEx(c, reg)
+		altObj = c
 	case "ocsp":
 		if o.NoNext {
 			c, _, err := buildOCSP(time.Unix(fwE+5, 0).UTC(), time.Time{}, time.Unix(fwE+6, 0).UTC())
@@ -321,6 +325,7 @@ func runFwOp(o *FwOp, rng *RNG, objs *fwObjects) (out string) {
 				return "builderr:nextUpdate not absent"
 			}
 			rs = zlint.LintOcspResponseEx(c, reg)
+			altObj = c
 			break
 		}
 		c := objs.ocspCache[o.Target.Unix()]
@@ -334,8 +339,128 @@ func runFwOp(o *FwOp, rng *RNG, objs *fwObjects) (out string) {
 			objs.ocspCache[o.Target.Unix()] = c
 		}
 		rs = zlint.LintOcspResponseEx(c, reg)
+		altObj = c
 	}
-	return canonResultSet(rs, rec, o.Lints)
+	out = canonResultSet(rs, rec, o.Lints)
+	if rs != nil {
+		if alt := altPaths(o, reg, cfg, altObj, rs); alt != "" {
+			out += " | ALT " + alt
+		}
+	}
+	return out
+}
+
+// altPaths: every other public way of executing a registered lint must give what the result set holds for it —
+// the deprecated registry accessors (Registry.ByName / BySource returning *Lint), the per-kind lookups'
+// ByName / BySource, CheckEffective on both — and a *Lint whose window the caller changed must obey its own
+// window (expected value: the same scripted lint registered with those dates in a second registry, linted
+// through LintCertificateEx, the path tied to the model). Returns a description of the first disagreements.
+func altPaths(o *FwOp, reg lint.Registry, cfg lint.Configuration, obj interface{}, rs *zlint.ResultSet) string {
+	var bad []string
+	note := func(path, name string, got *lint.LintResult, want *lint.LintResult) {
+		switch {
+		case got == nil && want == nil:
+		case got == nil || want == nil:
+			bad = append(bad, fmt.Sprintf("%s:%s:nil-mismatch", path, name))
+		case got.Status != want.Status || canonDetails(name, got.Details) != canonDetails(name, want.Details):
+			bad = append(bad, fmt.Sprintf("%s:%s:got=%d:%s:want=%d:%s", path, name, int(got.Status), esc(canonDetails(name, got.Details)), int(want.Status), esc(canonDetails(name, want.Details))))
+		}
+	}
+	safe := func(f func() *lint.LintResult) (r *lint.LintResult) {
+		defer func() {
+			if e := recover(); e != nil {
+				r = &lint.LintResult{Status: lint.Reserved, Details: "escaped panic"}
+			}
+		}()
+		return f()
+	}
+	for i := range o.Lints {
+		s := &o.Lints[i]
+		want := rs.Results[s.Name]
+		if want == nil {
+			continue
+		}
+		switch c := obj.(type) {
+		case *x509.Certificate:
+			if l := reg.ByName(s.Name); l == nil {
+				bad = append(bad, "Registry.ByName:"+s.Name+":nil")
+			} else {
+				note("Registry.ByName.Execute", s.Name, safe(func() *lint.LintResult { return l.Execute(c, cfg) }), want)
+				if eff := l.CheckEffective(c); eff != lint.VerifCheckEffective(l.EffectiveDate, l.IneffectiveDate, c.NotBefore) {
+					bad = append(bad, "Registry.ByName.CheckEffective:"+s.Name)
+				}
+				// the caller's copy with another window: must be judged by that window
+				target := c.NotBefore
+				for _, w := range [][2]time.Time{{{}, {}}, {target.Add(time.Second), {}}, {{}, target}, {target, target.Add(time.Second)}, {target.Add(-time.Hour), target.Add(time.Hour)}} {
+					l2 := reg.ByName(s.Name)
+					l2.EffectiveDate, l2.IneffectiveDate = w[0], w[1]
+					s2 := *s
+					s2.Eff, s2.Ineff = timeSpec(w[0]), timeSpec(w[1])
+					reg2 := lint.NewRegistry()
+					rec2 := &recorder{log: map[string]*strings.Builder{}}
+					if err := registerScripted(reg2, "cert", &s2, rec2); err != nil {
+						continue
+					}
+					reg2.SetConfiguration(cfg)
+					var rs2 *zlint.ResultSet
+					func() {
+						defer func() { recover() }()
+						rs2 = zlint.LintCertificateEx(c, reg2)
+					}()
+					if rs2 == nil {
+						continue
+					}
+					note("Registry.ByName(redated).Execute", s.Name, safe(func() *lint.LintResult { return l2.Execute(c, cfg) }), rs2.Results[s.Name])
+				}
+			}
+			for _, l := range reg.BySource(lint.LintSource(s.Source)) {
+				if l.Name == s.Name {
+					l := l
+					note("Registry.BySource.Execute", s.Name, safe(func() *lint.LintResult { return l.Execute(c, cfg) }), want)
+				}
+			}
+			if cl := reg.CertificateLints().ByName(s.Name); cl == nil {
+				bad = append(bad, "CertificateLints.ByName:"+s.Name+":nil")
+			} else {
+				note("CertificateLints.ByName.Execute", s.Name, safe(func() *lint.LintResult { return cl.Execute(c, cfg) }), want)
+			}
+			for _, cl := range reg.CertificateLints().BySource(lint.LintSource(s.Source)) {
+				if cl.Name == s.Name {
+					cl := cl
+					note("CertificateLints.BySource.Execute", s.Name, safe(func() *lint.LintResult { return cl.Execute(c, cfg) }), want)
+				}
+			}
+		case *x509.RevocationList:
+			if cl := reg.RevocationListLints().ByName(s.Name); cl == nil {
+				bad = append(bad, "RevocationListLints.ByName:"+s.Name+":nil")
+			} else {
+				note("RevocationListLints.ByName.Execute", s.Name, safe(func() *lint.LintResult { return cl.Execute(c, cfg) }), want)
+				if cl.CheckEffective(c) != lint.VerifCheckEffective(cl.EffectiveDate, cl.IneffectiveDate, c.ThisUpdate) {
+					bad = append(bad, "RevocationListLints.ByName.CheckEffective:"+s.Name)
+				}
+			}
+		case *ocsp.Response:
+			if cl := reg.OcspResponseLints().ByName(s.Name); cl == nil {
+				bad = append(bad, "OcspResponseLints.ByName:"+s.Name+":nil")
+			} else {
+				note("OcspResponseLints.ByName.Execute", s.Name, safe(func() *lint.LintResult { return cl.Execute(c, cfg) }), want)
+				if cl.CheckEffective(c) != lint.VerifCheckEffective(cl.EffectiveDate, cl.IneffectiveDate, c.NextUpdate) {
+					bad = append(bad, "OcspResponseLints.ByName.CheckEffective:"+s.Name)
+				}
+			}
+		}
+	}
+	if len(bad) > 4 {
+		bad = bad[:4]
+	}
+	return strings.Join(bad, " ")
+}
+
+func timeSpec(t time.Time) string {
+	if t.IsZero() {
+		return "Z"
+	}
+	return fmt.Sprintf("%d.%d", t.Unix(), t.Nanosecond())
 }
 
 // ---- generation -------------------------------------------------------------------
